@@ -359,3 +359,32 @@ def read_tree(root: Path):
 def restore_path(target: Path, recorded: str) -> str:
     """Where replicat's restore puts a file recorded under the absolute path `recorded`."""
     return str(Path(target, *Path(recorded).parts[1:]))
+
+
+# ---------------------------------------------------------------- virtual time for replicat.utils (rate limiter)
+class VTime:
+    """Stand-in for the `time` module inside replicat.utils: perf_counter and sleep follow the
+    scheduler's virtual wall clock; outside a scheduled execution sleep is free."""
+
+    oversleep = 1.0
+
+    def perf_counter(self):
+        s = dsched.cur()
+        return s.vclock if s is not None else 0.0
+
+    def sleep(self, seconds):
+        s = dsched.cur()
+        if s is not None:
+            s.vsleep(seconds * self.oversleep, 'time.sleep')
+
+    def __getattr__(self, name):
+        import time
+        return getattr(time, name)
+
+
+def install_virtual_time():
+    import replicat.utils as U
+    vt = VTime()
+    U.time = vt
+    U.threading = types.SimpleNamespace(Lock=dsched.CLock)
+    return vt
